@@ -1,3 +1,163 @@
-(* C10 -- placeholder while the Model and driver are being tied; theorems follow. *)
+(* C10 -- CGNAT port blocks never overlap and are always attributable.
+   Statements only; proofs are in Proofs/NatProofs.v.  Subject: Model/Nat.v, the model of
+   pkg/nat/manager.go + the allocation records of pkg/nat/logging.go as they are after the three
+   repairs listed in known_findings/C10.json (lowest free block, re-check under the pool lock,
+   duplicate public IP rejected).
+
+   [hist c m ops] is the Manager state after the operation list [ops] (AddPublicIP / AllocateNAT /
+   DeallocateNAT / GetAllocation / stats, in any order and number) from NewManager with effective
+   configuration [c] and log mode [m].  All theorems quantify over every [ops] and every
+   configuration in the guard [cfg_ok c] := 1 <= pps /\ 0 <= start <= end <= 65535
+   (decidable: [cfg_okb]); what happens outside the guard is shown by the _refuted theorems. *)
 From Coq Require Import ZArith List.
-From Verif Require Import Model.Nat Model.NatSpec.
+From Verif Require Import Base.Check Model.Nat Model.NatSpec Proofs.NatProofs.
+Import ListNotations.
+Local Open Scope Z_scope.
+
+(* (1) no two subscribers hold overlapping port ranges on the same public address *)
+Theorem C10_no_overlap : forall c m ops a b, cfg_ok c ->
+  In a (s_allocs (hist c m ops)) -> In b (s_allocs (hist c m ops)) ->
+  a_priv a <> a_priv b -> a_pub a = a_pub b -> a_end a < a_start b \/ a_end b < a_start a.
+Proof. exact c10_no_overlap. Qed.
+Print Assumptions C10_no_overlap.
+
+(* (2) every block lies inside the configured port range (and inside 16 bits) ... *)
+Theorem C10_in_range : forall c m ops a, cfg_ok c -> In a (s_allocs (hist c m ops)) ->
+  c_start c <= a_start a /\ a_start a <= a_end a /\ a_end a <= c_end c /\ a_end a <= 65535.
+Proof. exact c10_in_range. Qed.
+Print Assumptions C10_in_range.
+
+(* (3) ... with the configured size (also when the size does not divide the range) *)
+Theorem C10_block_size : forall c m ops a, cfg_ok c -> In a (s_allocs (hist c m ops)) ->
+  a_end a - a_start a + 1 = c_pps c.
+Proof. exact c10_block_size. Qed.
+Print Assumptions C10_block_size.
+
+(* (4) a subscriber keeps the same block until it is released: whatever happens after [ops1]
+   short of DeallocateNAT for that private IP, the table entry is the same and both
+   AllocateNAT and GetAllocation answer with it; at most one entry per subscriber; a release
+   removes it *)
+Theorem C10_stable : forall c m ops1 ops2 priv a,
+  find_alloc priv (s_allocs (hist c m ops1)) = Some a ->
+  Forall (fun o => o <> Dealloc priv) ops2 ->
+  find_alloc priv (s_allocs (hist c m (ops1 ++ ops2))) = Some a /\
+  result (hist c m (ops1 ++ ops2)) (Alloc priv) = RAlloc (view a) /\
+  result (hist c m (ops1 ++ ops2)) (Get priv) = RGet (Some (view a)).
+Proof. exact c10_stable. Qed.
+Print Assumptions C10_stable.
+
+Theorem C10_one_block_per_subscriber : forall c m ops, NoDup (map a_priv (s_allocs (hist c m ops))).
+Proof. exact c10_one_block_per_subscriber. Qed.
+Print Assumptions C10_one_block_per_subscriber.
+
+Theorem C10_released : forall c m ops priv,
+  find_alloc priv (s_allocs (hist c m (ops ++ [Dealloc priv]))) = None.
+Proof. exact c10_released. Qed.
+Print Assumptions C10_released.
+
+(* (5) attribution.  [attribute bs log ip port t] (Model/NatSpec.v) reads the log alone: records
+   stamped <= t, assign adds a block, release removes it, then the blocks covering (ip, port).
+   Bulk (RFC 6908) records: for every history, every time t, every (ip, port) and whatever block
+   size the reader assumes, the answer is exactly the holders in the table as it was after the
+   first t operations -- every allocation and release is in the log, nothing else is. *)
+Theorem C10_attributable_bulk : forall c ops bs ip port t, 0 <= t ->
+  attribute bs (s_log (hist c LogBulk ops)) ip port t =
+  holders (hist c LogBulk (firstn (Z.to_nat t) ops)) ip port.
+Proof. exact c10_attributable_bulk. Qed.
+Print Assumptions C10_attributable_bulk.
+
+(* ... and that answer is one subscriber: at most one holder of any (ip, port), exactly the
+   block's owner for a port inside a block *)
+Theorem C10_at_most_one_holder : forall c m ops ip port, cfg_ok c ->
+  (length (holders (hist c m ops) ip port) <= 1)%nat.
+Proof. exact c10_at_most_one_holder. Qed.
+Print Assumptions C10_at_most_one_holder.
+
+Theorem C10_attribute_names_the_holder : forall c ops bs a port t, cfg_ok c -> 0 <= t ->
+  In a (s_allocs (hist c LogBulk (firstn (Z.to_nat t) ops))) -> a_start a <= port <= a_end a ->
+  attribute bs (s_log (hist c LogBulk ops)) (a_pub a) port t = [a_priv a].
+Proof. exact c10_attribute_names_the_holder. Qed.
+Print Assumptions C10_attribute_names_the_holder.
+
+(* Traditional records carry the block start only.  Partial: the same equation holds when the
+   reader supplies the configured block size (guard: cfg_ok and bs = pps) ... *)
+Theorem C10_attributable_traditional_partial : forall c ops ip port t, cfg_ok c -> 0 <= t ->
+  attribute (c_pps c) (s_log (hist c LogTrad ops)) ip port t =
+  holders (hist c LogTrad (firstn (Z.to_nat t) ops)) ip port.
+Proof. exact c10_attributable_trad. Qed.
+Print Assumptions C10_attributable_traditional_partial.
+
+(* ... refuted without it: two in-guard configurations write identical traditional logs for one
+   history and disagree on the holder of a port; the record alone does not attribute *)
+Theorem C10_attributable_traditional_refuted :
+  exists c1 c2 ops ip port, cfg_ok c1 /\ cfg_ok c2 /\
+    s_log (hist c1 LogTrad ops) = s_log (hist c2 LogTrad ops) /\
+    holders (hist c1 LogTrad ops) ip port <> holders (hist c2 LogTrad ops) ip port.
+Proof. exact c10_traditional_record_alone_insufficient. Qed.
+Print Assumptions C10_attributable_traditional_refuted.
+
+(* stated: with the logger absent or disabled nothing is written, so nothing is attributable *)
+Theorem C10_logging_off_no_records : forall c ops, s_log (hist c LogOff ops) = [].
+Proof. exact c10_logging_off_no_records. Qed.
+Print Assumptions C10_logging_off_no_records.
+
+(* (6) configurations.  NewManager's defaulting leaves an in-guard configuration unchanged; the
+   all-zero configuration defaults into the guard *)
+Theorem C10_new_cfg_in_guard : forall pps st en, 1 <= pps -> 1 <= st -> st <= en -> en <= 65535 ->
+  new_cfg pps st en = {| c_pps := pps; c_start := st; c_end := en |} /\ cfg_ok (new_cfg pps st en).
+Proof. exact c10_new_cfg_in_guard. Qed.
+Print Assumptions C10_new_cfg_in_guard.
+
+(* outside the guard NewManager accepts the values and the uint16 conversions wrap (known
+   finding K10b): each clause fails *)
+Theorem C10_in_range_outside_guard_refuted :
+  ~ (forall c m ops a, In a (s_allocs (hist c m ops)) ->
+       c_start c <= a_start a /\ a_start a <= a_end a /\ a_end a <= c_end c).
+Proof. exact c10_in_range_outside_guard_refuted. Qed.
+Print Assumptions C10_in_range_outside_guard_refuted.
+
+Theorem C10_block_size_outside_guard_refuted :
+  ~ (forall c m ops a, In a (s_allocs (hist c m ops)) -> a_end a - a_start a + 1 = c_pps c).
+Proof. exact c10_size_outside_guard_refuted. Qed.
+Print Assumptions C10_block_size_outside_guard_refuted.
+
+Theorem C10_no_overlap_outside_guard_refuted :
+  ~ (forall c m ops a b, In a (s_allocs (hist c m ops)) -> In b (s_allocs (hist c m ops)) ->
+       a_priv a <> a_priv b -> a_pub a = a_pub b -> a_end a < a_start b \/ a_end b < a_start a).
+Proof. exact c10_no_overlap_outside_guard_refuted. Qed.
+Print Assumptions C10_no_overlap_outside_guard_refuted.
+
+(* (7) refinement Model <= Spec: the trace monitor of Model/NatSpec.v (the acceptor bin/check runs
+   over the implementation's traces, clauses 0-4) accepts every trace the Model produces, for
+   every sequential history and every in-guard configuration and log mode: inside the guard a
+   rejection of an implementation trace can never be shared by the Model *)
+Theorem C10_model_refines_spec : forall c m ops, cfg_ok c -> Forall seq_op ops ->
+  accept_trace accept 1%N (sinit c m)
+    (map (fun x => (fst (fst x), snd (fst x))) (model_trace step (init c m) ops)) = (0%N, 0%N).
+Proof. exact c10_model_refines_spec_check. Qed.
+Print Assumptions C10_model_refines_spec.
+
+(* non-vacuity: A, B, C allocate, A releases, D allocates (the history that used to give D the
+   ports of C), range 60000-65535 with 1000 ports each (non-dividing).  Three subscribers hold
+   blocks, D holds A's former block, and the log attributes port 62500 at time 6 to C only and
+   port 60500 to A at time 2, to nobody at time 5, to D at time 6. *)
+Definition ex_cfg : cfg := {| c_pps := 1000; c_start := 60000; c_end := 65535 |}.
+Definition ex_ops : list op := [AddIP 9; Alloc 1; Alloc 2; Alloc 3; Dealloc 1; Alloc 4].
+Example C10_hypotheses_satisfiable :
+  cfg_ok ex_cfg /\
+  map (fun a => (a_priv a, a_start a, a_end a)) (s_allocs (hist ex_cfg LogBulk ex_ops)) =
+    [(4, 60000, 60999); (3, 62000, 62999); (2, 61000, 61999)] /\
+  attribute 0 (s_log (hist ex_cfg LogBulk ex_ops)) 9 62500 6 = [3] /\
+  attribute 0 (s_log (hist ex_cfg LogBulk ex_ops)) 9 60500 2 = [1] /\
+  attribute 0 (s_log (hist ex_cfg LogBulk ex_ops)) 9 60500 5 = [] /\
+  attribute 0 (s_log (hist ex_cfg LogBulk ex_ops)) 9 60500 6 = [4] /\
+  find_alloc 3 (s_allocs (hist ex_cfg LogBulk (firstn 4 ex_ops))) =
+  find_alloc 3 (s_allocs (hist ex_cfg LogBulk ex_ops)).
+Proof. vm_compute. repeat split; reflexivity. Qed.
+
+(* the 65535 edge and a non-dividing size: range 1024-65535 with 64512 ports is one block per
+   address ending exactly at 65535; range 1-10 with 3 ports is three blocks, port 10 unused *)
+Example C10_edge_65535 :
+  map (fun a => (a_start a, a_end a)) (s_allocs (hist {| c_pps := 64512; c_start := 1024; c_end := 65535 |} LogBulk [AddIP 9; Alloc 1; Alloc 2])) = [(1024, 65535)] /\
+  map (fun a => (a_start a, a_end a)) (s_allocs (hist {| c_pps := 3; c_start := 1; c_end := 10 |} LogBulk [AddIP 9; Alloc 1; Alloc 2; Alloc 3; Alloc 4])) = [(7, 9); (4, 6); (1, 3)].
+Proof. vm_compute. split; reflexivity. Qed.
